@@ -114,3 +114,8 @@ TEXT["C19"]["level"] += (" Gate matrix (part gates): digest ok/bad x fetch outco
 TEXT["C10"]["technique"] += " + site-wide preemption sweep over statement-level scheduling points of both lifecycle services (part flow-preempt)"
 TEXT["C10"]["level"] += (" A second part (flow-preempt) instruments pkg/lifecycle/service.go and pkg/lifecycle-poc/service.go with statement-level scheduling points and, for every site reached in 0- and 1-deviation schedules, holds EVERY goroutine that reaches the site until nothing else can run (the per-node closures of a failing run racing with the run's cleanup goroutine). "
                          "A scripted long history (failure, user start inside the back-off, quiet period longer than the retry window, failures in a row) checks the retry budget per sliding window.")
+
+TEXT["C19"]["level"] += (" Crash part: a helper process runs the real index.SaveState, atomicfile.WriteFile and registry.SaveManifest - once replacing existing files, once writing them for the first time - "
+                         "under strace fault injection (SIGKILL, EIO, ENOSPC at every file-system syscall of the write path; the helper runs single-threaded so that syscall ordinals are the same in every run); "
+                         "afterwards the manifest must load through the real loader and hold exactly the previous or the new installs, every other file must be absent / previous or complete.")
+TEXT["C07"]["level"] += " On the full stack (single source, single destination, batch 1) the destination's outcome sequence of each run is fed to the same reference window: a tolerated rejection must reach the DLQ, a refused one may neither reach the DLQ nor be acknowledged."
